@@ -352,6 +352,10 @@ func registerExtlib(ex *Executor) {
 		ex.store(st, p, &ReaderV{S: r.S, Nil: r.Nil, Off: smt.IntC(off), Src: r.Src, Ver: r.Ver})
 		return TupleV{smt.IntC(off), IfaceV{}}, cNext
 	}
+	I["(*bytes.Reader).Size"] = func(ex *Executor, st *State, cc *CallCtx, args []Val) (Val, ctl) {
+		r := ex.load(st, args[0].(Ptr)).(*ReaderV)
+		return ex.strLen(st, r.S), cNext
+	}
 	I["(*bytes.Reader).Len"] = func(ex *Executor, st *State, cc *CallCtx, args []Val) (Val, ctl) {
 		r := ex.load(st, args[0].(Ptr)).(*ReaderV)
 		return smt.Sub(ex.strLen(st, r.S), r.Off), cNext
